@@ -37,13 +37,14 @@ def run_mutant(pid, patch, tier="quick"):
 
 def main():
     pid = sys.argv[1]
-    patches = sorted(glob.glob(os.path.join(HERE, "selftest", pid, "*.diff")))
+    only_harmless = "--harmless-only" in sys.argv
+    patches = [] if only_harmless else sorted(glob.glob(os.path.join(HERE, "selftest", pid, "*.diff")))
     for mf in sorted(glob.glob(os.path.join(HERE, "seeded", "*", "meta.json"))):
         try:
             meta = json.load(open(mf))
         except Exception:
             continue
-        if meta.get("property") == pid or pid in meta.get("properties", []):
+        if not only_harmless and (meta.get("property") == pid or pid in meta.get("properties", [])):
             patches.append(os.path.join(os.path.dirname(mf), "patch.diff"))
     # the evidence file of the real tree must not be clobbered by mutant runs
     ev = os.path.join(HERE, "evidence", pid + ".json")
@@ -57,9 +58,30 @@ def main():
     finally:
         if saved is not None:
             open(ev, "w").write(saved)
+    # semantics-preserving edits (renamed locals, reordered independent statements, ...): the check must stay quiet on them
+    harmless = []
+    try:
+        for p in sorted(glob.glob(os.path.join(HERE, "selftest", pid, "harmless", "*.diff"))):
+            r = run_mutant(pid, p)
+            r["status"] = "quiet" if r.get("rc") == 0 else ("patch-failed" if r["status"] == "patch-failed" else "FALSE-ALARM")
+            harmless.append(r)
+            print(r["status"], r["patch"], r.get("failed", [])[:3], r.get("detail", ""))
+    finally:
+        if saved is not None:
+            open(ev, "w").write(saved)
     missed = [r for r in out if r["status"] != "caught"]
-    print(json.dumps(dict(property=pid, mutants=len(out), caught=len(out) - len(missed), missed=[r["patch"] for r in missed])))
-    return 1 if missed else 0
+    alarms = [r for r in harmless if r["status"] != "quiet"]
+    os.makedirs(os.path.join(HERE, "selftest", "results"), exist_ok=True)
+    if only_harmless:
+        print(json.dumps(dict(property=pid, harmless=len(harmless), false_alarms=[r["patch"] for r in alarms])))
+        return 1 if alarms else 0
+    with open(os.path.join(HERE, "selftest", "results", pid + ".json"), "w") as f:
+        json.dump(dict(property=pid, breaking=[dict(patch=os.path.relpath(r["patch"], HERE) if os.path.isabs(r["patch"]) else r["patch"],
+                                                    status=r["status"], failed=r.get("failed", [])[:4], replayed=r.get("replayed")) for r in out],
+                       harmless=[dict(patch=r["patch"], status=r["status"], failed=r.get("failed", [])[:4]) for r in harmless]), f, indent=1)
+    print(json.dumps(dict(property=pid, mutants=len(out), caught=len(out) - len(missed), missed=[r["patch"] for r in missed],
+                          harmless=len(harmless), false_alarms=[r["patch"] for r in alarms])))
+    return 1 if (missed or alarms) else 0
 
 
 if __name__ == "__main__":
